@@ -649,7 +649,7 @@ func ruleR09_6(w *World, r *Report) {
 		r.Lost(fmt.Sprintf("ApplyPushPullPack: identifier updates (%d), ResetTransaction (%d), ReceiveRemoteModelOperations (%d)", len(idents), len(resets), len(recvs)))
 		return
 	}
-	good := false
+	good, dependsOnWire := false, false
 	var at dins
 	for _, rt := range resets {
 		paths, okp := d.paths(rt, nil)
@@ -662,6 +662,13 @@ func ruleR09_6(w *World, r *Report) {
 				}
 			}
 			ok = ok && pos
+			// whether the wire could announce the new state (the notification topic) has no say in it
+			for _, l := range p.strs {
+				if strings.Contains(l, "OnChangeDatatypeState") {
+					ok = false
+					dependsOnWire = true
+				}
+			}
 		}
 		for _, s := range idents {
 			if !d.reachable(s, rt) || d.reachable(rt, s) {
@@ -680,6 +687,10 @@ func ruleR09_6(w *World, r *Report) {
 	pos := d.pos(u, resets[0])
 	if good {
 		pos = d.pos(u, at)
+	}
+	if dependsOnWire {
+		r.Bad("ApplyPushPullPack/rollback point after the subscribed identifiers", pos, "the rollback point of a subscription response is taken only when wire.OnChangeDatatypeState succeeded: a subscriber whose notification topic could not be subscribed keeps the rollback point with its pre-subscription DUID, and the first failed transaction afterwards cuts it off from the datatype")
+		return
 	}
 	r.Check(good, "ApplyPushPullPack/rollback point after the subscribed identifiers", pos, "id and opID updated -> ResetTransaction -> received operations applied", "every rollback point of a subscription response is captured before the replica takes the datatype's id and its new operation id: the first failed transaction afterwards restores the pre-subscription DUID (and clock), and every later sync names a datatype the server does not know")
 }
